@@ -44,6 +44,16 @@ fn json_number(r: &mut Rng) -> String {
 
 /// text that may or may not look like a number (for from_string / coercion)
 fn numeric_text(r: &mut Rng) -> String {
+    // any of the forms below with blanks or tabs around it (column-aligned text, JSON strings)
+    if r.chance(15) {
+        let inner = numeric_text_plain(r);
+        let pad = |r: &mut Rng| r.pick(&["", " ", "  ", "\t", " \t"]).to_string();
+        return format!("{}{}{}", pad(r), inner, pad(r));
+    }
+    numeric_text_plain(r)
+}
+
+fn numeric_text_plain(r: &mut Rng) -> String {
     match r.below(16) {
         0 => format!("-{}", dg(r, 1, 5)),
         1 => format!("+{}", dg(r, 1, 5)),
